@@ -1166,8 +1166,8 @@ func main() {
 		policy, prefill, spc int
 		mmap, fixed          bool
 		rb                   int // -1 none, else the appender that rolls back
-		ooo                  bool
 		hist                 int // 0 floats only, 1 series 2 holds histograms, 2 series 1 float histograms + series 2 histograms
+		ooo                  bool
 	}
 	kindsOf := func(h int) []int {
 		switch h {
@@ -1192,10 +1192,10 @@ func main() {
 		}
 	}
 	variations := []variation{
-		{1, 0, 1, false, false, -1, 0}, {2, 0, 1, true, false, -1, 0}, {0, 0, 120, false, false, -1, 0},
-		{1, 3, 1, true, false, -1, 0}, {2, 1, 2, false, false, -1, 1}, {1, 2, 1, false, true, -1, 3},
-		{2, 3, 1, true, true, -1, 2}, {1, 1, 1, false, false, 0, 0}, {2, 0, 1, true, false, 1, 1},
-		{0, 3, 1, true, false, -1, 3}, {1, 4, 1, true, false, -1, 2}, {2, 2, 120, false, true, 1, 0},
+		{1, 0, 1, false, false, -1, 0, false}, {2, 0, 1, true, false, -1, 0, false}, {0, 0, 120, false, false, -1, 0, false},
+		{1, 3, 1, true, false, -1, 0, false}, {2, 1, 2, false, false, -1, 1, false}, {1, 2, 1, false, true, -1, 3, false},
+		{2, 3, 1, true, true, -1, 2, false}, {1, 1, 1, false, false, 0, 0, false}, {2, 0, 1, true, false, 1, 1, false},
+		{0, 3, 1, true, false, -1, 3, false}, {1, 4, 1, true, false, -1, 2, false}, {2, 2, 120, false, true, 1, 0, false},
 	}
 	variations[0].ooo, variations[3].ooo, variations[6].ooo, variations[9].ooo = true, true, true, true
 	perSchedule := 1
